@@ -1136,6 +1136,9 @@ func (c *TermCtx) AbstractNL(t *Term) *Term {
 				args[i] = rec(a)
 			}
 			switch {
+			case x.Op == "app" && c.nonlinearDef(x.Name) && nonConstArgs(args) >= 2:
+				// defined nonlinear functions (dec_mul, dec_quo, ...) with two or more non-constant arguments
+				r = c.UF("nl_"+x.Name, x.Sort, args...)
 			case x.Name == "*" && len(args) == 2 && args[0].Op != "int" && args[1].Op != "int":
 				a, b := args[0], args[1]
 				if a.id > b.id {
@@ -1162,4 +1165,40 @@ func (c *TermCtx) AbstractNL(t *Term) *Term {
 		return r
 	}
 	return rec(t)
+}
+
+// nonlinearDef: name is a define-fun whose text (or that of a definition it uses) contains * div mod.
+func (c *TermCtx) nonlinearDef(name string) bool {
+	seen := map[string]bool{}
+	var rec func(n string) bool
+	rec = func(n string) bool {
+		txt, ok := c.defs[n]
+		if !ok || seen[n] {
+			return false
+		}
+		seen[n] = true
+		if k := strings.Index(txt, ")"); k >= 0 {
+			body := txt[k:]
+			if strings.Contains(body, "(* ") || strings.Contains(body, "(div ") || strings.Contains(body, "(mod ") {
+				return true
+			}
+		}
+		for _, d := range c.symDeps[n] {
+			if rec(d) {
+				return true
+			}
+		}
+		return false
+	}
+	return rec(name)
+}
+
+func nonConstArgs(args []*Term) int {
+	n := 0
+	for _, a := range args {
+		if a.Op != "int" {
+			n++
+		}
+	}
+	return n
 }
